@@ -63,12 +63,24 @@ pub enum Form {
     Key(KMod, RVal),
     /// a condition-level comparison
     Cond(Cond),
+    /// the key inside a sequence of two-key blocks that share fields: the shape the matrix pass
+    /// turns into table rows (the other keys are chosen so that only this predicate decides)
+    Row(KMod, RVal),
 }
 
 fn rule_of(form: &Form) -> RuleAst {
     match form {
         Form::Key(m, v) => RuleAst { idents: vec![("A".into(), Ident::Map(vec![(Key::with("f", m.clone()), v.clone())]))], cond: Cond::id("A"), tp: vec![], tn: vec![] },
         Form::Cond(c) => RuleAst { idents: vec![], cond: c.clone(), tp: vec![], tn: vec![] },
+        Form::Row(m, v) => {
+            let s = |t: &str| RVal::Str(t.into());
+            let rows: Vec<Entries> = vec![
+                vec![(Key::with("f", m.clone()), v.clone()), (Key::plain("g"), s("x"))],
+                vec![(Key::plain("g"), s("y")), (Key::with("f", m.clone()), v.clone())],
+                vec![(Key::plain("g"), s("z")), (Key::plain("h"), s("z"))],
+            ];
+            RuleAst { idents: vec![("A".into(), Ident::Seq(rows))], cond: Cond::id("A"), tp: vec![], tn: vec![] }
+        }
     }
 }
 
@@ -88,6 +100,11 @@ pub fn forms(op: CmpOp, c: Num) -> Vec<(String, Form)> {
             v.push(("key".into(), Form::Key(KMod::None, pat.clone())));
             v.push(("int(key)".into(), Form::Key(KMod::Int, pat.clone())));
             v.push(("not(key)".into(), Form::Key(KMod::Not, pat.clone())));
+            v.push(("row key".into(), Form::Row(KMod::None, pat.clone())));
+            v.push(("row int(key)".into(), Form::Row(KMod::Int, pat.clone())));
+            if op == CmpOp::Eq {
+                v.push(("row int(key)-bare".into(), Form::Row(KMod::Int, RVal::Int(i as i64))));
+            }
             if op == CmpOp::Eq {
                 v.push(("key-bare".into(), Form::Key(KMod::None, RVal::Int(i as i64))));
                 v.push(("int(key)-bare".into(), Form::Key(KMod::Int, RVal::Int(i as i64))));
@@ -103,6 +120,7 @@ pub fn forms(op: CmpOp, c: Num) -> Vec<(String, Form)> {
         Num::F(f) => {
             v.push(("key".into(), Form::Key(KMod::None, pat.clone())));
             v.push(("flt(key)".into(), Form::Key(KMod::Flt, pat.clone())));
+            v.push(("row flt(key)".into(), Form::Row(KMod::Flt, pat.clone())));
             if op == CmpOp::Eq {
                 v.push(("key-bare".into(), Form::Key(KMod::None, RVal::Float(f))));
                 v.push(("flt(key)-bare".into(), Form::Key(KMod::Flt, RVal::Float(f))));
@@ -188,6 +206,9 @@ fn check(rep: &mut Report, rf: &Ref, ast: &RuleAst, text: &str, rule: &tau_engin
         if c.0 != text {
             c.0 = text.to_string();
             c.1 = [eng::Sw(15), eng::Sw(4), eng::Sw(14)].iter().filter_map(|s| eng::optimise(rule, *s).ok().map(|r| (*s, r))).collect();
+            if label.starts_with("row") {
+                rep.count(if c.1.iter().any(|(_, r)| eng::printed(r).contains("matrix(")) { "row_forms_optimised_into_a_matrix" } else { "row_forms_without_a_matrix" });
+            }
         }
         for (sw, r) in c.1.iter() {
             for (rep_name, got3, e) in [("yaml", eng::solve3(r, &m), yexp), ("std", eng::solve3(r, &h), exp)] {
@@ -240,7 +261,7 @@ pub fn run(ctx: &Ctx) -> i32 {
                 };
                 let full = format!("{} {:?} {:?}", label, op, c);
                 for (vi, v) in values.iter().enumerate() {
-                    let doc = DVal::Obj(vec![("f".into(), v.clone())]);
+                    let doc = if label.starts_with("row") { DVal::Obj(vec![("f".into(), v.clone()), ("g".into(), DVal::s("x"))]) } else { DVal::Obj(vec![("f".into(), v.clone())]) };
                     let r = check(&mut rep, &rf, &ast, &text, &rule, &doc, &full, near(v, &c));
                     if label == "key" || label == "int(key)" || label == "flt(key)" {
                         table.entry((label.clone(), vi)).or_insert([None; 5])[oi] = r;
@@ -433,7 +454,7 @@ pub fn run(ctx: &Ctx) -> i32 {
         ctx,
         rep,
         Meta {
-            rule: format!("complete grid: operators {{=,>,>=,<,<=, bare}} x {} constants (i64 extremes, 2^53 boundary, signed zeros, fractions, 2^63/2^64 as doubles, 1e300) x {} field values (every constant as Int/UInt/Float, i64::MAX+1, u64::MAX, NaN, +-inf, numeric and non-numeric strings, booleans, null, arrays, objects) x forms {{plain key, int(key), flt(key), str(key), not(key), list, condition int()/flt() comparisons in both operand orders, two-field comparisons, str()==str()}}, each value delivered through YAML (non-negative integers unsigned) and through std types (signedness as given); plus random 64-bit patterns reinterpreted as i64/u64/f64. Oracle: exact arithmetic in i128 / IEEE order with conversion tables for the casts. non-trivial = triple within one unit of the constant or on a kind boundary; distinct by (form, operator, constant, value)", nconst, values.len()),
+            rule: format!("complete grid: operators {{=,>,>=,<,<=, bare}} x {} constants (i64 extremes, 2^53 boundary, signed zeros, fractions, 2^63/2^64 as doubles, 1e300) x {} field values (every constant as Int/UInt/Float, i64::MAX+1, u64::MAX, NaN, +-inf, numeric and non-numeric strings, booleans, null, arrays, objects) x forms {{plain key, int(key), flt(key), str(key), not(key), the same keys inside a sequence of blocks that the matrix pass turns into table rows, list, condition int()/flt() comparisons in both operand orders, two-field comparisons, str()==str()}}, each value delivered through YAML (non-negative integers unsigned) and through std types (signedness as given); plus random 64-bit patterns reinterpreted as i64/u64/f64. Oracle: exact arithmetic in i128 / IEEE order with conversion tables for the casts. non-trivial = triple within one unit of the constant or on a kind boundary; distinct by (form, operator, constant, value)", nconst, values.len()),
             exhaustive: true,
             assumptions: vec!["mixed-kind comparisons answered false although the relation holds are what the statement permits (counted as incomplete_but_sound)".into(), "rounding direction of int() on a non-integral float is open".into()],
             min_nontrivial: 500,
